@@ -65,7 +65,7 @@ fn c32_pc_to_error_location() {
     assert!(loc.filename.len() == (want % 3) as usize, "file of the instruction that failed");
     assert!(loc.function_name.len() == 3 + ((want + 1) % 3) as usize, "function of the instruction that failed");
     kani::cover!(n == 3 && pc == tab[2].0, "req: failing instruction is the last one of an entry");
-    kani::cover!(n == 3 && pc == tab[2].0 + 1, "req: failing instruction is the first one of an entry");
+    kani::cover!(n == 3 && pc - 1 == tab[2].0, "req: failing instruction is the first one of an entry");
     std::mem::forget(t);
 }
 
